@@ -206,7 +206,7 @@ func TestC07BigCut(t *testing.T) {
 	fw.Run(t, fw.Spec[bigCase]{
 		ID: "C07", Name: "big_cut", Quick: 2400, Thorough: 48000,
 		Gen: genBigCutCase, Check: checkBigCutCase,
-		Rule: "CSV tables of 13-3000 rows (30% a count from {20, 25, ..., 2500, 3000} that divides many percentages, 30% 13-159, 10% 401-999, 30% 1000-3000; --cpu 1, 2 or 4) whose 1-2 key columns spread a drawn pool of 1-40 values (numbers / datetimes / text as in 'sort') over the rows by i*a+b mod pool size, with NULLs every 3rd / 7th / 50th row or none and ids permuted by a stride; ORDER BY as in 'cut'; the cut is 40% a small window at the head (LIMIT n <= rows/12 [OFFSET m <= rows/20], 70% WITH TIES, so the tie group of the last kept row reaches far beyond the window), 30% a PERCENT that is a multiple of 0.25 and gives a whole number of rows (exact count required), 30% as in 'cut'; oracle of 'cut'; non-trivial as in 'cut', distinct additionally by size class and, for whole-product percentages, the row count",
+		Rule:        "CSV tables of 13-3000 rows (30% a count from {20, 25, ..., 2500, 3000} that divides many percentages, 30% 13-159, 10% 401-999, 30% 1000-3000; --cpu 1, 2 or 4) whose 1-2 key columns spread a drawn pool of 1-40 values (numbers / datetimes / text as in 'sort') over the rows by i*a+b mod pool size, with NULLs every 3rd / 7th / 50th row or none and ids permuted by a stride; ORDER BY as in 'cut'; the cut is 40% a small window at the head (LIMIT n <= rows/12 [OFFSET m <= rows/20], 70% WITH TIES, so the tie group of the last kept row reaches far beyond the window), 30% a PERCENT that is a multiple of 0.25 and gives a whole number of rows (exact count required), 30% as in 'cut'; oracle of 'cut'; non-trivial as in 'cut', distinct additionally by size class and, for whole-product percentages, the row count",
 		Assumptions: []string{assumeDomain, assumeNeg, assumePct},
 	})
 }
